@@ -425,6 +425,9 @@ func c10Run1(c *fw.Ctx) {
 	}
 	for _, cf := range cfgs {
 		alpha := c10Alphabet(cf.k)
+		if c.Shard == 0 {
+			c.Extra(fmt.Sprintf("depth_bound_completed_k%d", cf.k), int64(cf.depth))
+		}
 		if !c.Thorough() {
 			// quick: drop symbols whose mirror image on the other connection is kept
 			var keep []c10Sym
